@@ -117,6 +117,7 @@ def judge_binpacking(ctx, setup, kv, secs, live, case):
     from moptipyapps.binpacking2d.instance import Instance
     from moptipyapps.binpacking2d.packing import Packing
     from moptipyapps.binpacking2d.packing_result import from_single_log
+    from vlib.monitors.packing_contracts import objective_classes
     inst = Instance.from_resource(setup["instance"])
     desc = wb.desc_of(inst, "shipped")
     nums = first_line_numbers(secs.get("RESULT_Y", []))
@@ -170,12 +171,42 @@ def judge_binpacking(ctx, setup, kv, secs, live, case):
             or pk.instance is not inst:
         ctx.violation("from_log-packing-differs", "Packing.from_log != "
                       "logged packing", case)
-    pr = from_single_log(setup["log"])
     vals = po.objective_values(desc, rows)
+    # parse history: the same process first parses the same log with a
+    # caller-chosen objective / bound selection (a documented parameter of
+    # from_logs); neither parse may see the other's selection
+    if ctx.rng.integers(2):
+        from moptipyapps.binpacking2d.packing_result import from_logs
+        ocls = objective_classes()
+        keys = sorted(ocls)
+        # the selection has to contain the run's own objective (the record
+        # validates best_f against it); bound values must not exceed the bins
+        pick = sorted({fname} | {keys[int(i)] for i in ctx.rng.permutation(
+            len(keys))[:int(ctx.rng.integers(0, 3))]})
+        mark = "bins.lowerBound.v" + str(int(ctx.rng.integers(1000)))
+        got_prs = []
+        from_logs(os.path.dirname(setup["log"]), got_prs.append,
+                  objectives=tuple(ocls[q] for q in pick),
+                  bin_bounds={mark: lambda _i: 1})
+        ctx.count("from_logs_with_custom_selection")
+        mine = [q for q in got_prs
+                if q.end_result.rand_seed == setup["seed"]]
+        if len(mine) != 1 or set(mine[0].objectives) != set(pick) or any(
+                mine[0].objectives[q] != vals[q] for q in pick) or dict(
+                mine[0].bin_bounds) != {mark: 1} or set(
+                mine[0].objective_bounds) != {
+                    f"{q}.{b}" for q in pick
+                    for b in ("lowerBound", "upperBound")}:
+            ctx.violation(
+                "from_logs-ignores-objective-or-bound-selection",
+                f"from_logs(objectives={pick}, bin_bounds={mark}->1) gave " + (
+                    f"{dict(mine[0].objectives)} / {dict(mine[0].bin_bounds)}"
+                    f" / {sorted(mine[0].objective_bounds)}"
+                    if mine else "no result"), case)
+    pr = from_single_log(setup["log"])
     if dict(pr.objectives) != vals:
         ctx.violation("from_single_log-objectives-differ",
                       f"{dict(pr.objectives)} vs {vals}", case)
-    from vlib.monitors.packing_contracts import objective_classes
     for key, cls in objective_classes().items():
         o = cls(inst)
         lbk, ubk = f"{key}.lowerBound", f"{key}.upperBound"
